@@ -643,31 +643,32 @@ fn run_hist(cx: &mut Cx, rep: &mut Report, h: &Hist, origin: &str) {
                 }
             }
             Op::Seed(sc, ws) => {
+                // "a dictionary file on disk": the file is written by hand, one word per line
                 let Some(p) = dict_path(sc) else { continue };
-                let mut d = match cx.rt.block_on(load_dict(&p)) {
-                    Ok(d) => d,
-                    Err(_) => MutableDictionary::new(),
-                };
-                for w in ws {
-                    d.append_word_str(w, WordMetadata::default());
+                let Some(k) = key_of(sc) else { continue };
+                let content: String = ws.iter().map(|w| format!("{w}\n")).collect();
+                if let Some(par) = p.parent() {
+                    let _ = std::fs::create_dir_all(par);
                 }
-                if cx.rt.block_on(save_dict(&p, d)).is_err() {
-                    rep.fail("save-error", "save_dict failed while seeding".into(), inp.clone());
-                    return;
+                if std::fs::write(&p, &content).is_err() {
+                    rep.count("hist:seed_failed");
+                    continue;
                 }
+                chars.extend(content.chars());
                 for w in ws {
-                    chars.extend(w.chars());
                     allwords.insert(w.clone());
-                    match sc {
-                        Scope::User => case_ops.push(format!("a : {}", wcps(w))),
-                        Scope::File(i) => case_ops.push(format!("f {} : {}", i, wcps(w))),
-                    }
-                    impl_ops.push("+".into());
-                    if let Some(k) = key_of(sc) {
-                        exp.added.entry(k.clone()).or_default().push(w.clone());
-                        add_log.push((oi, k, w.clone()));
-                    }
                 }
+                match sc {
+                    Scope::User => case_ops.push(format!("s a : c {}", cps_str(&content))),
+                    Scope::File(i) => case_ops.push(format!("s f {} : c {}", i, cps_str(&content))),
+                }
+                impl_ops.push("s".into());
+                exp.added.insert(k.clone(), ws.clone());
+                add_log.retain(|(_, kk, _)| *kk != k);
+                for w in ws {
+                    add_log.push((oi, k.clone(), w.clone()));
+                }
+                rep.count("hist:dictionary_file_written_by_hand");
             }
             Op::Restart => {
                 sess.request("shutdown", Value::Null);
@@ -1320,6 +1321,61 @@ fn gen_path(r: &mut Rng) -> String {
     s
 }
 
+/// FC07f probe (outside the correspondence: the model re-reads the disk on every check and has no linter cache).
+/// MergedDictionary compares children by a hash of their words' characters WITHOUT separators, in hash-map order;
+/// {aA, A} and {Aa, A} can both hash the stream "AaA".  When they do, update_document keeps the old linter and the
+/// word just added stays reported until the server restarts.  Coq: C07_merge_rebuild_same_id_refuted.
+fn probe_stale(cx: &mut Cx, rep: &mut Report, rounds: u64, origin: &str) {
+    let mut stale = 0u64;
+    let text = "Here aA and Aa are.";
+    let toks = word_tokens("plaintext", text);
+    let idx = toks.words.iter().position(|w| w == "Aa");
+    let Some(idx) = idx else { return };
+    for _ in 0..rounds {
+        rep.eval();
+        let dir = cx.fresh_dir();
+        let d = dir.to_str().unwrap().to_string();
+        let st = settings(&format!("{d}/cfg/user.txt"), &format!("{d}/fd"), &format!("{d}/stats.txt"), json!({}));
+        let _g = cx.rt.enter();
+        let mut s = Session::new(st.clone());
+        let doc = format!("{d}/n.txt");
+        let _ = std::fs::write(&doc, text);
+        let uri = Url::from_file_path(&doc).unwrap().to_string();
+        s.command("HarperAddToUserDict", vec![json!("aA"), json!(uri)]);
+        s.command("HarperAddToUserDict", vec![json!("A"), json!(uri)]);
+        s.did_open(&uri, "plaintext", text);
+        s.command("HarperAddToUserDict", vec![json!("Aa"), json!(uri)]);
+        s.did_change(&uri, text);
+        let flagged = |s: &Session| -> bool {
+            let ds = s.last_published(&uri).map(diags_of).unwrap_or_default();
+            ds.iter().any(|(r, m)| *r == toks.ranges[idx] && is_spelling_msg(m))
+        };
+        let in_session = flagged(&s);
+        s.request("shutdown", Value::Null);
+        drop(s);
+        let mut s2 = Session::new(st);
+        s2.did_open(&uri, "plaintext", text);
+        let after_restart = flagged(&s2);
+        s2.request("shutdown", Value::Null);
+        drop(s2);
+        if in_session && !after_restart {
+            stale += 1;
+        } else if in_session {
+            rep.fail("added-word-reported", "\"Aa\" is reported after it was added, even after a restart".into(), json!({"kind": "stale-linter", "rounds": 1, "origin": origin}));
+        }
+        let _ = std::fs::remove_dir_all(&dir);
+    }
+    rep.count_n("stale_probe:rounds", rounds);
+    rep.count_n("stale_probe:stale_linter_rounds", stale);
+    if stale > 0 {
+        rep.fail(
+            "added-word-reported:stale-linter",
+            format!("user dictionary {{aA, A}}, document open, add \"Aa\": in {stale} of {rounds} rounds \"Aa\" is still reported by the next check of the open document and accepted after a restart (child hash over the unseparated stream \"AaA\" did not change, the linter was not rebuilt)"),
+            json!({"kind": "stale-linter", "rounds": rounds, "origin": origin}),
+        );
+    }
+}
+
 fn run_input(cx: &mut Cx, rep: &mut Report, v: &Value, origin: &str) {
     match v["kind"].as_str().unwrap_or("") {
         "load" => run_load(cx, rep, v["content"].as_str().unwrap_or(""), origin),
@@ -1336,6 +1392,7 @@ fn run_input(cx: &mut Cx, rep: &mut Report, v: &Value, origin: &str) {
                 run_hist(cx, rep, &h, origin)
             }
         }
+        "stale-linter" => probe_stale(cx, rep, v["rounds"].as_u64().unwrap_or(40), origin),
         "wasm" => {
             if let Some(ops) = wasm_from(v) {
                 run_wasm(cx, rep, &ops, origin)
@@ -1379,6 +1436,77 @@ fn main() {
         for i in 0..args.scale(12, 80) {
             let h = gen_hist(&mut r, true, i % 7 == 6);
             run_hist(&mut cx, &mut rep, &h, "gen-crash");
+        }
+        // ---- finite sweeps ----
+        // every file content up to a length over {a, A, LF, CR}
+        let alpha = ['a', 'A', '\n', '\r'];
+        let maxlen = args.scale(3, 5);
+        let mut level: Vec<String> = vec![String::new()];
+        for _ in 0..=maxlen {
+            let mut next = vec![];
+            for c in &level {
+                run_load(&mut cx, &mut rep, c, "sweep");
+                for a in alpha {
+                    let mut n = c.clone();
+                    n.push(a);
+                    next.push(n);
+                }
+            }
+            level = next;
+        }
+        // every sequence of up to n adds over three spellings x {user, file 0}, then both documents checked
+        let sw = ["zorb", "Zorb", "quix"];
+        let mut seqs: Vec<Vec<(usize, usize)>> = vec![vec![]];
+        let mut all: Vec<Vec<(usize, usize)>> = vec![];
+        for _ in 0..args.scale(1, 3) {
+            let mut next = vec![];
+            for q in &seqs {
+                for w in 0..3 {
+                    for sc in 0..2 {
+                        let mut n = q.clone();
+                        n.push((w, sc));
+                        next.push(n);
+                    }
+                }
+            }
+            all.extend(next.iter().cloned());
+            seqs = next;
+        }
+        for q in &all {
+            let mut ops = vec![];
+            for (w, sc) in q {
+                ops.push(Op::Add(if *sc == 0 { Scope::User } else { Scope::File(0) }, sw[*w].to_string()));
+            }
+            ops.push(Op::Restart);
+            ops.push(Op::Lint(0, "zorb Zorb ZORB quix Quix".to_string()));
+            ops.push(Op::Lint(1, "zorb Zorb ZORB quix Quix".to_string()));
+            let h = Hist { lang: "plaintext".into(), urls: vec!["f:a/b.txt".into(), "f:a/c.txt".into()], ops };
+            run_hist(&mut cx, &mut rep, &h, "sweep");
+        }
+        // every crash point of one add (thorough): small user dictionary, small file dictionary with non-ASCII
+        // words, and a dictionary larger than the 8 KiB BufWriter (two write calls)
+        if args.thorough() {
+            let big: Vec<String> = (0..1500).map(|i| format!("w{}x{}", i, "qz".repeat(1 + i % 4))).collect();
+            let points: Vec<(&str, u32)> = vec![
+                ("open", 1), ("open", 2), ("open", 3), ("mkdir", 1), ("mkdir", 2), ("write", 1), ("write", 2), ("write", 3), ("write", 4),
+                ("close", 1), ("close", 2), ("close", 3), ("rename", 1), ("rename", 2), ("sync", 1), ("sync", 2), ("unlink", 1),
+            ];
+            for (class, when) in &points {
+                for scen in 0..3 {
+                    let (sc, seed): (Scope, Vec<String>) = match scen {
+                        0 => (Scope::User, vec!["alpha".into(), "beta".into()]),
+                        1 => (Scope::File(0), vec!["alpha".into(), "žluťoučký".into(), "𝒜lpha".into()]),
+                        _ => (Scope::User, big.clone()),
+                    };
+                    let ops = vec![
+                        Op::Seed(sc.clone(), seed),
+                        Op::Crash(sc, "gamma".into(), class.to_string(), *when),
+                        Op::Lint(0, "alpha beta gamma w7xqzqzqzqz".into()),
+                    ];
+                    let h = Hist { lang: "plaintext".into(), urls: vec!["f:a/b.txt".into()], ops };
+                    run_hist(&mut cx, &mut rep, &h, "sweep-crash");
+                }
+            }
         }
         for i in 0..args.scale(60, 600) {
             let ops = gen_wasm(&mut r, i % 5 == 4);
